@@ -11,6 +11,7 @@ package tokencache
 //@   ghost idMatch bool = false
 //@   on call invoke github.com/sassoftware/relic/v8/token.Token.GetKey(_, _, _) ret (k, e): fetched = true; fetchedKey = k
 //@   on call bytes.Equal(a, b) ret (r): idMatch = r && sameslice(a, wantKeyID)
+//@   modifies map(c.keys)
 //@   ensures @pinned_request_not_served_from_mismatching_cache ret1 == nil && !fetched ==> len(wantKeyID) == 0 || idMatch
 //@   ensures @fetched_key_returned ret1 == nil && fetched ==> ret0 == fetchedKey
 //@   ensures @pinned_request_never_populates len(wantKeyID) != 0 ==> \
